@@ -301,7 +301,22 @@ def norm_test(node: ast.AST, env: Optional[Env] = None, negate: bool = False) ->
         op_or = isinstance(node.op, ast.Or)
         if negate:
             op_or = not op_or
-        parts = sorted(norm_test(v, env, negate) for v in node.values)
+        parts: list = []
+
+        def add(v: ast.AST, neg: bool) -> None:
+            # flatten nested groups of the same (effective) operator, through `not`
+            while isinstance(v, ast.UnaryOp) and isinstance(v.op, ast.Not):
+                v, neg = v.operand, not neg
+            if isinstance(v, ast.BoolOp) and (isinstance(v.op, ast.Or) != neg) == op_or:
+                for w in v.values:
+                    add(w, neg)
+            else:
+                parts.append(norm_test(v, env, neg))
+        for v in node.values:
+            add(v, negate)
+        parts = sorted(set(parts))
+        if len(parts) == 1:
+            return parts[0]
         return "(" + (" or " if op_or else " and ").join(parts) + ")"
     if isinstance(node, ast.Compare):
         if len(node.ops) > 1:
@@ -332,3 +347,17 @@ def norm_test(node: ast.AST, env: Optional[Env] = None, negate: bool = False) ->
         return f"{normalize(l, env).key()} {_SYM[op]} {normalize(r, env).key()}"
     s = normalize(node, env).key()
     return f"not {s}" if negate else s
+
+
+def conj_test(conds, env: Optional[Env] = None) -> str:
+    """Canonical text of the conjunction of (test, polarity) pairs, e.g. the branch conditions
+    under which a CFG node is reached: De Morgan applied, nested groups flattened, operands
+    sorted and de-duplicated. The empty conjunction is "True"."""
+    vals = []
+    for t, pol in conds:
+        vals.append(t if pol else ast.UnaryOp(op=ast.Not(), operand=t))
+    if not vals:
+        return "True"
+    if len(vals) == 1:
+        return norm_test(vals[0], env)
+    return norm_test(ast.BoolOp(op=ast.And(), values=vals), env)
